@@ -144,6 +144,94 @@ def one(p, rec, exp_tree, ctxname, layout, rnd, run_vm, limit, out):
             out.append(("timeout", "case did not finish in 300 s", case))
 
 
+def tdiv(x, y):
+    q = abs(x) // abs(y)
+    return -q if (x < 0) != (y < 0) else q
+
+
+def ev_tree(t, env):
+    """value of the tree TLC printed, for * and / on integers (None: division by zero)"""
+    if t["k"] == "leaf":
+        return env[t["x"]]
+    l, r = ev_tree(t["l"], env), ev_tree(t["r"], env)
+    if l is None or r is None:
+        return None
+    if t["o"] == "*":
+        return l * r
+    return None if r == 0 else tdiv(l, r)
+
+
+def under_right_of_div(t, name, flag=False):
+    if t["k"] == "leaf":
+        return flag and t["x"] == name
+    return under_right_of_div(t["l"], name, flag) or under_right_of_div(t["r"], name, flag or t["o"] == "/")
+
+
+def extras(rec, exp_tree, out):
+    """The same token sequence (a) with literal operands, compiled at both optimisation levels - the grouping must survive
+    constant folding - and (b) for * and / with an integer vector as one operand: the grouping holds component-wise."""
+    toks = rec["toks"]
+    env0 = ENVS[0]
+    ev0 = rec["vals"][0]
+    if ev0["t"] == "int":
+        lit = " ".join(str(env0[t]) if t in ("b", "c", "d") else t for t in toks)
+        for ctxname in ("ret", "c-"):
+            src = program(ctxname, lit)
+            want = rec["cvals"][0]["-"] if ctxname == "c-" else ev0
+            if want["t"] != "int":
+                continue
+            for opt in (False, True):
+                case = {"ops": rec["ops"], "span": rec["span"], "ctx": ctxname + "/literals", "optimize": opt, "source": src}
+                try:
+                    with time_limit(300):
+                        st, r = common.compile_source(src, {"optimize": opt})
+                        if st != "ok":
+                            out.append(("reject", f"compiler refused the program ({r})", case))
+                            continue
+                        with quiet():
+                            gotv = common.link_vm(r).Invoke("f", **env0)
+                except CaseTimeout:
+                    out.append(("timeout", "case did not finish in 300 s", case))
+                    continue
+                except BaseException as e:  # noqa
+                    out.append(("vm-error", f"VM failed with {type(e).__name__} on a well-defined expression", case))
+                    continue
+                if not (isinstance(gotv, (int, float)) and gotv == want["v"]):
+                    out.append(("value-literals", f"`{lit}` with a = {env0['a']} (optimize={opt}) = {gotv!r}, language says {want['v']}", dict(case, got=repr(gotv), want=want["v"])))
+                out.append(("ran", None, None))
+    if set(rec["ops"]) <= {"*", "/"}:
+        names = ["a", "b", "c", "d"][:len(rec["ops"]) + 1]
+        for vn in names[:2]:
+            if under_right_of_div(exp_tree, vn):
+                continue
+            sig = ", ".join(("int4 " if n == vn else "int ") + n for n in ["a", "b", "c", "d"])
+            src = f"export function f({sig}) -> int4\n{{\n  return {' '.join(toks)};\n}}\n"
+            case = {"ops": rec["ops"], "span": rec["span"], "ctx": "ret/int4 " + vn, "source": src}
+            for env in ENVS[:3]:
+                vec = [env[vn], env[vn] + 1, 9, 11]
+                want = [ev_tree(exp_tree, dict(env, **{vn: x})) for x in vec]
+                if any(w is None for w in want):
+                    continue
+                try:
+                    with time_limit(300):
+                        st, r = common.compile_source(src)
+                        if st != "ok":
+                            out.append(("reject-vector", f"compiler refused the program ({r})", case))
+                            break
+                        with quiet():
+                            gotv = common.link_vm(r).Invoke("f", **dict(env, **{vn: vec}))
+                except CaseTimeout:
+                    out.append(("timeout", "case did not finish in 300 s", case))
+                    break
+                except BaseException as e:  # noqa
+                    out.append(("vm-error-vector", f"VM failed with {type(e).__name__} on a well-defined expression", dict(case, env=env)))
+                    break
+                if not (isinstance(gotv, list) and len(gotv) == 4 and all(isinstance(g, (int, float)) and g == w for g, w in zip(gotv, want))):
+                    out.append(("value-vector", f"`{' '.join(toks)}` with {vn} = {vec}, {env} = {gotv!r}, language says {want}", dict(case, env=env, got=repr(gotv), want=want)))
+                    break
+                out.append(("ran", None, None))
+
+
 def work(job):
     """One TLC case x contexts x layouts on the real code."""
     rec, layouts, seed, vm_plan = job
@@ -155,6 +243,8 @@ def work(job):
     for ctxname in CONTEXTS:
         for layout in layouts:
             one(p, rec, exp_tree, ctxname, layout, rnd, vm_plan is None or (ctxname, layout) in vm_plan, 20, out)
+    if vm_plan is None or seed % 3 == 0 or set(rec["ops"]) <= {"*", "/"} or set(rec["ops"]) <= {"+", "-"}:
+        extras(rec, exp_tree, out)
     return out
 
 
@@ -202,7 +292,9 @@ def run(ctx, args):
         rule="TLC enumerates all 169 ordered pairs x 4 and 2197 triples x 7 parenthesis variants of the 13 binary "
              "operators; each is rendered in 9 contexts (return, assignment rhs, the four compound assignments, initializer, if condition, call argument) "
              f"x {'2' if quick else '6'} layouts and compared (tree via parser getters, value via the VM on 6 operand "
-             "assignments). Non-trivial = mixes two precedence levels or has a parenthesis group.",
+             "assignments). Extras: the same sequences with literal operands at both optimisation levels (all pairs, all sequences over + - and over * /, "
+             "a third of the other triples) and, for * and /, with an int4 vector as first or second operand (component-wise value). "
+             "Non-trivial = mixes two precedence levels or has a parenthesis group.",
         samples=samples, exhaustive=True, traces_validated=ran,
         assumptions=["operands are int parameters; value comparison skipped where the expression divides by zero or takes % of a negative"],
         extra={"tlc_cases": len(recs), "programs_run_on_vm": ran})
